@@ -65,7 +65,7 @@ ASSUMPTIONS = [
     "(round-trip failures make the run inconclusive, never a violation)",
     "an integer literal in a Decimal/Fraction registry may be int or non_int_type",
     "open('<string>','rb') raised by CPython's tokenizer error path is benign (constant path)",
-    "per-parse watchdog 20 s of CPU time (hostile strings 1.5 s); magnitude guard: |exponent| <= 2048, integer results <= 3e5 bits",
+    "per-parse watchdog 3 s of CPU time (hostile strings 1.5 s, other tables 20 s); magnitude guard: |exponent| <= 2048, integer results <= 3e5 bits",
 ]
 DEPS = ()
 NPARTS = 16
@@ -577,15 +577,16 @@ class Comparator:
         rec.observe("outcome_classes", env.nitname + ":" + wcls)
         for s, stname, used in self.renderings(t, nrandom, styles):
             self.n += 1
-            got, events, _ = self.watch.run(env.ureg.parse_expression, s)
+            got, events, _ = self.watch.run(env.ureg.parse_expression, s, limit=3.0)
             rec.count("tree_cases")
             key = (env.nitname, stname, wcls, adj if len(adj) <= 3 else (t[0], nl, adj[0], adj[-1], len(adj)))
             rec.case(key, nontrivial=bool(ops))
             if events:
                 self.audit_violation(events, s, env, "valid-expression")
             if got[0] == "timeout":
-                rec.violation("parse-did-not-terminate", {"string": s, "tree": repr(t), "expected": short(wants[0])},
-                              nit=env.nitname, style=stname)
+                rec.count("parse_watchdog_fired")
+                self.mismatch(t, s, stname, used, ("err", "WatchdogTimeout(3s CPU)", ""), wants[0],
+                              "did-not-terminate", env, workload)
                 continue
             if got[0] == "base":
                 rec.violation("parse-raised-BaseException", {"string": s, "exc": got[1]}, nit=env.nitname)
